@@ -207,87 +207,115 @@ def norm_operand(e):
 
 
 def table(ctx, facts, roles, truthy, cfg):
+    """K3 — the table itself, read off the decision cases of the truthiness function per kind of its argument
+    (rules/pathsum.py, rules/optnorm.py): match arms, if/else, `!v.is_empty()`, `map_or(false, |n| n != 0.0)` are all
+    the same rows here."""
+    from . import optnorm, pathsum
     unit = Unit(roles, truthy.key)
-    # no recursion
     rec = [s for s in unit.calls(lambda c: c.get("key") == truthy.key)]
     ctx.check(not rec, "K3.no-recursion", "truthiness does not recurse into elements (%s)" % cfg, "the truthiness function calls itself", where=truthy.where(), fn=truthy.key)
-    from . import prov as P
+    where = truthy.where()
+
+    def atom_pred(key):
+        """(predicate, holds-when-atom-true) for atoms that test the payload: zero-ness of the number, emptiness."""
+        txt = " ".join(str(x) for x in key[1:])
+        if key[0] == "cmp" and key[1] == "Eq":
+            a_, b_ = key[2], key[3]
+            for x, y in ((a_, b_), (b_, a_)):
+                if y in ("c:0.0", "c:-0.0") and "as_f64" in x and "'Number'" in x:
+                    return ("zero", True)
+                if y == "c:0" and "::len(" in x and ("'String'" in x or "'Array'" in x):
+                    return ("empty", True)
+                if y == "c:''" and "'String'" in x:
+                    return ("empty", True)
+        if key[0] == "cmp" and key[1] == "Lt" and key[2] == "c:0" and "::len(" in key[3]:
+            return ("empty", False)                      # 0 < len
+        if key[0] == "pure" and "is_empty(" in key[1] and ("'String'" in key[1] or "'Array'" in key[1]):
+            return ("empty", True)
+        if key[0] == "pure" and re.search(r"::(eq)\(", key[1]) and "c:''" in key[1] and "'String'" in key[1]:
+            return ("empty", True)
+        if key[0] == "pure" and re.search(r"::(ne)\(", key[1]) and "c:''" in key[1] and "'String'" in key[1]:
+            return ("empty", False)
+        return None
+
+    def value_pred(v):
+        """("const", b) | ("pred", predicate, value-when-predicate-holds) | ("payload",) | None"""
+        v = strip_refs(v)
+        neg = False
+        while v[0] == "unop" and v[1] == "Not":
+            neg, v = not neg, strip_refs(v[2])
+        if v[0] == "const" and isinstance(const_value(v[1]), bool):
+            return ("const", const_value(v[1]) != neg)
+        if v[0] == "field" and v[1][0] == "downcast" and v[1][2] == "Bool" and strip_refs(v[1][1]) == ("arg", 1) and not neg:
+            return ("payload",)
+        if v[0] == "binop" and v[1] in ("Eq", "Ne", "Gt", "Lt"):
+            ca, cb = pathsum.canon(strip_refs(v[2])), pathsum.canon(strip_refs(v[3]))
+            for x, y, op in ((ca, cb, v[1]), (cb, ca, {"Gt": "Lt", "Lt": "Gt"}.get(v[1], v[1]))):
+                if y in ("c:0.0", "c:-0.0") and ("as_f64" in x or "payload" in x) and op in ("Eq", "Ne"):
+                    return ("pred", "zero", (op == "Eq") != neg)
+                if y == "c:0" and "::len(" in x and op in ("Eq", "Ne", "Gt"):
+                    return ("pred", "empty", (op == "Eq") != neg)
+        if v[0] == "binop" and v[1] in ("Eq", "Ne", "Gt", "Lt", "Ge", "Le"):
+            # a comparison, but not `value as a double == 0.0` / `len == 0`: the table is decided by another test
+            return ("other-test", show_expr(v)[:80])
+        if v[0] == "call" and v[1]:
+            pth = v[1]["path"]
+            if pth.endswith("::is_empty") and v[2]:
+                return ("pred", "empty", not neg)
+            if re.search(r"PartialEq.*::(eq|ne)$", pth) and any(strip_refs(x)[0] == "const" and const_value(strip_refs(x)[1]) == "" for x in v[2]):
+                return ("pred", "empty", (pth.endswith("::eq")) != neg)
+        return None
     for v in facts.variants(VALUE):
-        restrict = P.specialise_unit(roles, truthy.key, lambda e, a, _v=v: _v if (a == VALUE and e == ("arg", 1)) else None)
-        blocks = restrict[truthy.key]
-        with truthy.restricted(blocks):
-            r = strip_refs(truthy.trace(0))
-        where = truthy.where(min(blocks - {0}) if len(blocks) > 1 else 0)
-        # calls and comparisons in the region (root + closures created there)
-        calls = []
-        cmps = []
-        for b in unit.bodies:
-            bl = restrict.get(b.key, set())
-            for bi in sorted(bl):
-                t = b.blocks[bi]["term"]
-                if t["k"] == "Call" and callee_of(t):
-                    calls.append((b, bi, callee_of(t)["path"], t))
-                for si, s in enumerate(b.blocks[bi]["stmts"]):
-                    if s["k"] == "Assign" and s["rv"]["k"] == "BinaryOp" and s["rv"]["op"] in ("Eq", "Ne", "Lt", "Le", "Gt", "Ge"):
-                        cmps.append((b, bi, si, s))
-        paths = [c[2] for c in calls]
         key = "%s (%s)" % (v, cfg)
-        if v == "Null":
-            ctx.check(r[0] == "const" and const_value(r[1]) is False and not calls, "K3.table", key, "null is decided as %s" % show_expr(r), where=where, fn=truthy.key, nontrivial=True, sample={"kind": v, "decision": "const false"})
-        elif v == "Object":
-            ctx.check(r[0] == "const" and const_value(r[1]) is True and not calls, "K3.table", key, "an object is decided as %s (every object, even {}, is truthy)" % show_expr(r), where=where, fn=truthy.key, nontrivial=True, sample={"kind": v, "decision": "const true"})
-        elif v == "Bool":
-            good = r[0] == "field" and r[1][0] == "downcast" and r[1][2] == "Bool" and strip_refs(r[1][1]) == ("arg", 1) and not calls
-            ctx.check(good, "K3.table", key, "a boolean is decided as %s instead of itself" % show_expr(r), where=where, fn=truthy.key, nontrivial=True, sample={"kind": v, "decision": "payload"})
-        elif v == "Number":
-            has_f64 = "serde_json::Number::as_f64" in paths
-            bad_acc = [p for p in paths if re.search(r"Number::(as_i64|as_u64|is_i64|is_u64|is_f64)$", p)]
-            zero = None
-            for (b, bi, si, s) in cmps:
-                rv = s["rv"]
-                if rv.get("opty") not in ("f64", "f32"):
-                    continue
-                for x, y in ((rv["a"], rv["b"]), (rv["b"], rv["a"])):
-                    c = op_const(y) if y["k"] == "Const" else None
-                    cv = const_value(c) if c else None
-                    if isinstance(cv, float) and cv == 0.0 and rv["op"] in ("Eq", "Ne"):
-                        zero = (b, bi, si, rv["op"], s)
-            ctx.check(has_f64 and not bad_acc, "K3.number-as-double", key, "a number's truthiness is not taken from its value as a double (accessors: %s)" % [p.rsplit("::", 1)[1] for p in paths if "Number::" in p], where=where, fn=truthy.key, nontrivial=True)
-            ctx.check(zero is not None, "K3.number-zero", key, "no comparison of the numeric value with the constant 0.0 decides a number's truthiness", where=where, fn=truthy.key, nontrivial=True)
-            if zero is not None:
-                b, bi, si, op, s = zero
-                pol = polarity(b, bi, s)
-                want = (op == "Eq")  # cmp true ⇒ value is zero ⇒ falsy when op is Eq
-                good = pol is not None and ((pol[True] is False and pol[False] is True) if op == "Eq" else (pol[True] is True and pol[False] is False))
-                ctx.check(good, "K3.number-polarity", key, "zero is not mapped to false / non-zero to true (comparison %s 0.0, outcomes %s)" % (op, pol), where=b.where(bi, si), fn=b.key, nontrivial=True, sample={"kind": v, "cmp": op + " 0.0", "outcomes": str(pol)})
-        elif v in ("String", "Array"):
-            # emptiness test of the payload
-            empt = None
-            for (b, bi, p, t) in calls:
-                if re.search(r"::is_empty$", p):
-                    empt = ("is_empty", b, bi, None)
-                if v == "String" and re.search(r"PartialEq.*::(eq|ne)$", p):
-                    args = [strip_refs(b.trace(a)) for a in t["args"]]
-                    if any(a[0] == "const" and const_value(a[1]) == "" for a in args):
-                        empt = ("eq-empty" if p.endswith("::eq") else "ne-empty", b, bi, None)
-            for (b, bi, si, s) in cmps:
-                rv = s["rv"]
-                for x, y in ((rv["a"], rv["b"]), (rv["b"], rv["a"])):
-                    c = op_const(y) if y["k"] == "Const" else None
-                    ex = strip_refs(b.trace(x))
-                    if c is not None and const_value(c) == 0 and ex[0] == "call" and ex[1] and ex[1]["path"].endswith("::len") and rv["op"] in ("Eq", "Ne", "Gt"):
-                        empt = ("len-" + rv["op"], b, bi, (si, s))
-            iters = [p for p in paths if "Iterator" in p or p.endswith("::iter")]
-            ctx.check(empt is not None and not iters, "K3.emptiness", key, "%s truthiness is not decided by emptiness of the payload alone (calls: %s)" % (v.lower(), [p.rsplit("::", 2)[-2:] for p in paths][:6]), where=where, fn=truthy.key, nontrivial=True)
-            if empt is not None:
-                kind, b, bi, extra = empt
-                if extra is not None:
-                    pol = polarity(b, bi, extra[1])
-                else:
-                    pol = polarity_call(b, bi, r if b.key == truthy.key else None)
-                empty_when_true = kind in ("is_empty", "eq-empty", "len-Eq")
-                good = pol is not None and ((pol[True] is False and pol[False] is True) if empty_when_true else (pol[True] is True and pol[False] is False))
-                ctx.check(good, "K3.empty-polarity", key, "empty is not mapped to false / non-empty to true (test %s, outcomes %s)" % (kind, pol), where=b.where(bi), fn=b.key, nontrivial=True, sample={"kind": v, "test": kind, "outcomes": str(pol)})
+        cases = optnorm.decision_cases(facts, truthy, known=lambda e, adt, _v=v: _v if (adt == VALUE and strip_refs(e) == ("arg", 1)) else None)
+        if cases is None:
+            ctx.unread("K3.table", key, "the truthiness function has loops or too many paths to summarise", where=where, fn=truthy.key)
+            continue
+        rows = {}        # (predicate, holds) -> set of results ; ("always",) -> results
+        unread = []
+        accessors = set()
+        for conds, val, pth in cases:
+            for ev in pth.events:
+                if ev[1] and re.search(r"Number::(as_i64|as_u64|is_i64|is_u64|is_f64|as_f64)$", ev[1]["path"]):
+                    accessors.add(ev[1]["path"].rsplit("::", 1)[1])
+                if ev[1] and ("Iterator" in ev[1]["path"] or ev[1]["path"].endswith("::iter") or ev[1]["path"].endswith("::chars")):
+                    accessors.add("iterates")
+            state = None
+            dead = False
+            for k, tv in conds.items():
+                ap = atom_pred(k)
+                if ap and isinstance(tv, bool):
+                    state = (ap[0], tv == ap[1])
+                elif k[0] == "variant" and "as_f64" in k[1] and tv == "None":
+                    dead = True          # a Number without an f64 value does not exist in the standard number model (K3.number-model)
+            if dead:
+                continue
+            vp = value_pred(val)
+            if vp is None:
+                unread.append(show_expr(strip_refs(val))[:70])
+                continue
+            if vp[0] == "const":
+                rows.setdefault(state or ("always",), set()).add(vp[1])
+            elif vp[0] == "payload":
+                rows.setdefault(("payload",), set()).add(True)
+            elif vp[0] == "pred":
+                rows.setdefault((vp[1], True), set()).add(vp[2])
+                rows.setdefault((vp[1], False), set()).add(not vp[2])
+            elif vp[0] == "other-test":
+                rows.setdefault(("decided by", vp[1]), set()).add(True)
+        if unread:
+            ctx.unread("K3.table", key, "result not readable as a constant, the payload or a zero/emptiness test: %s" % unread[:2], where=where, fn=truthy.key)
+            continue
+        want = {"Null": {("always",): {False}}, "Object": {("always",): {True}}, "Bool": {("payload",): {True}},
+                "Number": {("zero", True): {False}, ("zero", False): {True}}, "String": {("empty", True): {False}, ("empty", False): {True}},
+                "Array": {("empty", True): {False}, ("empty", False): {True}}}[v]
+        ctx.check(rows == want, "K3.table", key, "%s is decided as %s; the table says %s" % (v, {k: sorted(x) for k, x in rows.items()}, {k: sorted(x) for k, x in want.items()}), where=where, fn=truthy.key, nontrivial=True,
+                  sample={"kind": v, "rows": {str(k): sorted(x) for k, x in rows.items()}})
+        if v == "Number":
+            bad_acc = sorted(accessors - {"as_f64"})
+            ctx.check("as_f64" in accessors and not bad_acc, "K3.number-as-double", key, "a number's truthiness is not taken from its value as a double (accessors: %s)" % sorted(accessors), where=where, fn=truthy.key, nontrivial=True)
+        if v in ("String", "Array"):
+            ctx.check("iterates" not in accessors, "K3.emptiness", key, "%s truthiness looks at the elements, not only at emptiness" % v.lower(), where=where, fn=truthy.key, nontrivial=True)
 
 
 def polarity(b, bi, stmt):
